@@ -258,4 +258,11 @@ theorem gone_peer_dial_returns (D : GrpcBroker.DialParams) (hD : D.Good) (caller
 /-- Witness: without fail-fast a blocking dial to a vanished listener retries for ever -/
 theorem no_fail_fast_witness : GrpcBroker.gonePeerDialReturns ⟨true, true, true, false⟩ true = false := by decide
 
+/-- **A broker call made after the peer has gone returns** (Accept, the knock and its acknowledgement all go through
+`Send`): no message can be queued for a send loop that no longer exists. -/
+theorem send_after_stream_end_returns (S : GrpcBroker.StreamerParams) (hS : S.Good) : GrpcBroker.sendAfterEndReturns S = true := hS
+
+/-- Witness: a buffered hand-over can accept a message nobody will ever send -/
+theorem buffered_send_witness : GrpcBroker.sendAfterEndReturns ⟨false⟩ = false := by decide
+
 end GoPlugin.Props.C09
